@@ -549,4 +549,39 @@ for dist in ("gauss",):
         "def f(means, cov):\n    np.random.seed(4)\n    return random.cholesky_sample(cov, 4, means=means, dist=np.random.standard_normal), random.CholeskySampler(means, cov, dist=np.random.standard_normal).sample(2)\n"
         , {"means": "mean3", "cov": "cov"}, nd=(2,), dt=("f8", "f4", "i8"), func="random.cholesky_sample / CholeskySampler", valuation="dist= given")
 
+# ------------------------------------------------------------------ fifth round (wave 4): PRECOMPUTED arguments of HTM.bincount
+# htmid2 / htmrev2 / minid / maxid are accepted by bincount (HTM.match rejects them: "no longer supported").  The ids / reverse
+# indices are array PARAMETERS of the driver (derived kinds, see C15.build_args): first dtype int64 native contiguous -- exactly what
+# lookup_id returns, the only form that needs no conversion -- then the rest of the matrix.
+IDS = ("i8", "u8", "i4")
+BC = "    h = htm.HTM(7)\n    return h.bincount(0.05, 3.0, 4, ra1, dec1, ra2, dec2"
+BCG = {"ra1": "cra", "dec1": "cdec", "ra2": "cra", "dec2": "cdec", "ids": "htmid:ra2,dec2,7"}
+drv("htm_bincount_ids", "htm", "def f(ra1, dec1, ra2, dec2, ids):\n" + BC + ", htmid2=ids)\n", BCG, nd=(1,), dt=IDS, func="HTM.bincount",
+    valuation="htmid2= given (array argument)")
+drv("htm_bincount_ids_twice", "htm", "def f(ra1, dec1, ra2, dec2, ids):\n    h = htm.HTM(7)\n"
+    "    a = h.bincount(0.05, 3.0, 4, ra1, dec1, ra2, dec2, htmid2=ids, getbins=False)\n"
+    "    b = h.bincount(0.05, 3.0, 4, ra1, dec1, ra2, dec2, htmid2=ids, getbins=False)\n    return a, b\n", BCG, nd=(1,), dt=IDS, func="HTM.bincount",
+    valuation="htmid2= given, the same ids used for two calls")
+drv("htm_bincount_ids_minmax", "htm", "def f(ra1, dec1, ra2, dec2, ids):\n    lo, hi = int(ids.min()), int(ids.max())\n" + BC + ", htmid2=ids, minid=lo, maxid=hi)\n",
+    BCG, nd=(1,), dt=IDS, func="HTM.bincount", valuation="htmid2=, minid=, maxid= given")
+drv("htm_bincount_ids_rev", "htm", "def f(ra1, dec1, ra2, dec2, ids, rev):\n" + BC + ", htmid2=ids, htmrev2=rev)\n",
+    dict(BCG, rev="htmrev:ids"), nd=(1,), dt=IDS, func="HTM.bincount", valuation="htmid2= and htmrev2= given")
+drv("htm_bincount_ids_rev_minmax", "htm",
+    "def f(ra1, dec1, ra2, dec2, ids, rev):\n    lo, hi = int(ids.min()), int(ids.max())\n" + BC + ", htmid2=ids, htmrev2=rev, minid=lo, maxid=hi, scale=2.0)\n",
+    dict(BCG, rev="htmrev:ids"), nd=(1,), dt=IDS, func="HTM.bincount", valuation="htmid2=, htmrev2=, minid=, maxid=, scale= given")
+drv("htm_bincount_rev_only", "htm", "def f(ra1, dec1, ra2, dec2, ids, rev):\n" + BC + ", htmrev2=rev)\n",
+    dict(BCG, rev="htmrev:ids"), nd=(1,), dt=IDS, func="HTM.bincount", valuation="htmrev2= alone (ids recomputed inside)", exempt={"ids": "not passed to the call (only used to derive rev)"})
+drv("htm_bincount_minmax_only", "htm", "def f(ra1, dec1, ra2, dec2):\n" + BC + ", minid=0, maxid=10)\n",
+    {"ra1": "cra", "dec1": "cdec", "ra2": "cra", "dec2": "cdec"}, nd=(1,), func="HTM.bincount", valuation="minid=, maxid= alone (ignored: recomputed)")
+
+# HTM.match accepts htmid2 / minid / maxid (only htmrev2 is rejected: "the old way using reverse indices is no longer supported")
+MT = "    h = htm.HTM(7)\n    return h.match(ra1, dec1, ra2, dec2, 2.0, maxmatch=1"
+drv("htm_match_ids", "htm", "def f(ra1, dec1, ra2, dec2, ids):\n" + MT + ", htmid2=ids)\n", BCG, nd=(1,), dt=IDS, func="HTM.match", valuation="htmid2= given (array argument)")
+drv("htm_match_ids_minmax", "htm", "def f(ra1, dec1, ra2, dec2, ids):\n    lo, hi = int(ids.min()), int(ids.max())\n" + MT + ", htmid2=ids, minid=lo, maxid=hi, verbose=True)\n",
+    BCG, nd=(1,), dt=IDS, func="HTM.match", valuation="htmid2=, minid=, maxid=, verbose given")
+drv("htm_match_minmax_only", "htm", "def f(ra1, dec1, ra2, dec2):\n" + MT + ", minid=0, maxid=10)\n",
+    {"ra1": "cra", "dec1": "cdec", "ra2": "cra", "dec2": "cdec"}, nd=(1,), func="HTM.match", valuation="minid=, maxid= alone")
+drv("htm_match_rev_rejected", "htm", "def f(ra1, dec1, ra2, dec2, ids, rev):\n" + MT + ", htmid2=ids, htmrev2=rev)\n",
+    dict(BCG, rev="htmrev:ids"), nd=(1,), dt=IDS, func="HTM.match", valuation="htmrev2= given: rejected with RuntimeError (the arguments must still be untouched)")
+
 DRIVERS = D
